@@ -1,5 +1,5 @@
 #!/usr/bin/env python3
-"""usage: seedmatrix.py [--no-write] [--round2 | Cxx | Cxx_r2 ...]
+"""usage: seedmatrix.py [--no-write] [--round2 | --round3 | Cxx | Cxx_r2 | Cxx_r3 ...]
 Apply every seeded change in turn, run the quick tier of the named checks (default: the property's own check), record the
 violation keys in seeded/Cxx/meta.json (`caught_by`) and restore /repo.  Never run while something else reads /repo."""
 import json
@@ -18,7 +18,8 @@ def sh(cmd, **kw):
 
 def main():
     write = "--no-write" not in sys.argv
-    seeds = [a for a in sys.argv[1:] if not a.startswith("--")] or [("C%02d_r2" if "--round2" in sys.argv else "C%02d") % i for i in range(1, 21)]
+    seeds = [a for a in sys.argv[1:] if not a.startswith("--")] or ([("C%02d_r3") % i for i in (2, 5, 6, 8, 9, 11, 12, 13, 14, 19)] if "--round3" in sys.argv else
+                                                                      [("C%02d_r2" if "--round2" in sys.argv else "C%02d") % i for i in range(1, 21)])
     if sh("git -C /repo status --porcelain").stdout.strip():
         sys.exit("refusing: /repo has uncommitted changes")
     for sd in seeds:
